@@ -764,10 +764,7 @@ def init_obligations(repo):
     fs = _ast.unparse(repo.units["validators:RefResolver.from_schema"].node)
     rec("validators:RefResolver.from_schema/T/base", "return cls(*args, base_uri=id_of(schema), referrer=schema, **kwargs)" in fs or
         "return cls(base_uri=id_of(schema), referrer=schema, *args, **kwargs)" in fs, "from_schema uses id_of(schema) as base URI and the schema as referrer")
-    for m, want in (("__getitem__", "return self.store[self.normalize(uri)]"), ("__setitem__", "self.store[self.normalize(uri)] = value"),
-                    ("__delitem__", "del self.store[self.normalize(uri)]"), ("normalize", "return urlsplit(uri).geturl()")):
-        u = _ast.unparse(repo.units["_utils:URIDict.%s" % m].node)
-        rec("_utils:URIDict.%s/T/normalises" % m, want in u, "URIDict.%s goes through normalize (%s)" % (m, want))
+    # URIDict.normalize / __getitem__ / __setitem__ / __delitem__ / __iter__ / __len__: proved by symbolic execution (contracts/tasks_derive.py: uridict:methods)
     cls = [n for n in _ast.walk(repo.trees["_utils"]) if isinstance(n, _ast.ClassDef) and n.name == "URIDict"]
     rec("_utils:URIDict/T/mutable-mapping", bool(cls) and [_ast.unparse(b) for b in cls[0].bases] == ["MutableMapping"] and
         not any(isinstance(s, _ast.FunctionDef) and s.name in ("update", "setdefault", "get", "__contains__") for s in cls[0].body),
